@@ -27,7 +27,10 @@ vars == <<kinds, inh, cache, phase>>
 
 D == 4
 Nodes == 1..D
-Kinds == {"none", "inherit", "initial", "explicit"}
+\* "ivar": a winning declaration that is invalid at computed-value time (var() of an undefined custom property): the property
+\* defaults as if there were no declaration (CSS Variables 1, 3.1). (The keyword `unset` is not supported by the
+\* implementation - it is an invalid value, or an identifier where identifiers are allowed - and is not part of C04.)
+Kinds == {"none", "inherit", "initial", "explicit", "ivar"}
 Parent(n) == n - 1          \* the pseudo-element 4 inherits from its element 3
 
 RECURSIVE Computed(_, _, _)
@@ -40,9 +43,15 @@ Computed(k, i, n) ==
 \* ---- units: `kinds` is reused to hold a unit scenario
 \*   [root, mid, leaf : font-size declarations, n, unit : the probed length `width: n unit`]
 FsDecls == {"none", "em2", "pct150", "rem15"}
-UnitScn == {[root |-> r, mid |-> m, leaf |-> l, n |-> n, unit |-> u] :
+\* `pre`: another font-relative length (height: 2ex / 2ch) of the probed element, computed BEFORE the probed one: the measured
+\* ratios are cached per font and per unit, and one unit must not answer for the other
+UnitScn == {[root |-> r, mid |-> m, leaf |-> l, n |-> n, unit |-> u, pre |-> "none"] :
                r \in {"px10", "px20", "em2", "rem15", "none"}, m \in FsDecls, l \in FsDecls, n \in {1, 3},
-               u \in {"px", "pt", "pc", "in", "cm", "mm", "q", "em", "rem"}}
+               u \in {"px", "pt", "pc", "in", "cm", "mm", "q", "em", "rem", "ex", "ch"}} \cup
+           {[root |-> r, mid |-> m, leaf |-> l, n |-> 3, unit |-> u, pre |-> q] :
+               r \in {"px10", "none"}, m \in FsDecls, l \in FsDecls, u \in {"ex", "ch"}, q \in {"ex", "ch"}}
+\* x-height and advance of "0" of the two test fonts, in 1/1000 em (Ahem by design: 0.8 em and 1 em; weasyprint.otf: 0.7998 and 1)
+FontRatio(u) == IF u = "ex" THEN 800 ELSE 1000
 \* computed font sizes in 1/381 px; the initial font size (medium) is 16px
 Fs0 == 16 * 381
 RootFs(s) == CASE s.root = "px10" -> 10 * 381 [] s.root = "px20" -> 20 * 381
@@ -55,7 +64,8 @@ MidFs(s)  == Derive(s.mid, RootFs(s), RootFs(s))
 LeafFs(s) == Derive(s.leaf, MidFs(s), RootFs(s))
 Abs381(u) == CASE u = "px" -> 381 [] u = "pt" -> 508 [] u = "pc" -> 6096 [] u = "in" -> 36576 [] u = "cm" -> 14400
                [] u = "mm" -> 1440 [] u = "q" -> 360
-Width381(s) == CASE s.unit = "em" -> s.n * LeafFs(s) [] s.unit = "rem" -> s.n * RootFs(s) [] OTHER -> s.n * Abs381(s.unit)
+Width381(s) == CASE s.unit = "em" -> s.n * LeafFs(s) [] s.unit = "rem" -> s.n * RootFs(s)
+                 [] s.unit \in {"ex", "ch"} -> (s.n * LeafFs(s) * FontRatio(s.unit)) \div 1000 [] OTHER -> s.n * Abs381(s.unit)
 
 \* ---- relative keywords: font-weight bolder / lighter resolve against the inherited weight (CSS Fonts 4, 2.2.1);
 \*      the root inherits the initial value 400
@@ -187,7 +197,9 @@ EmitScn == phase = "done" =>
                                            want381 |-> Width381(kinds),
                                            \* the same declaration matched by the middle element computes against ITS font size
                                            wantmid381 |-> CASE kinds.unit = "em" -> kinds.n * MidFs(kinds) [] kinds.unit = "rem" -> kinds.n * RootFs(kinds)
+                                                            [] kinds.unit \in {"ex", "ch"} -> (kinds.n * MidFs(kinds) * FontRatio(kinds.unit)) \div 1000
                                                             [] OTHER -> kinds.n * Abs381(kinds.unit),
+                                           wantpre381 |-> IF kinds.pre = "none" THEN 0 ELSE (2 * LeafFs(kinds) * FontRatio(kinds.pre)) \div 1000,
                                            \* line-height: 150% on the middle element is absolute: the leaf inherits the length, not the percentage
                                            lh381 |-> (3 * MidFs(kinds)) \div 2]))
   ELSE IF Mode = "weights" THEN PrintT(ToJson([mode |-> "weights", scn |-> kinds, weight |-> LeafWeight(kinds)]))
